@@ -30,7 +30,10 @@ MANIFEST = {
     "note": "Bounds: list length, 3 timespan values, skew/offset grid, depth. Float rounding of non-integer skews is tolerated to 1e-3 microseconds.",
 }
 
-SPANS = [(1000000, 2000000), (2000000, 3500000), (4000000, 4000001)]
+# span 3 differs from span 0 by less than a millisecond at both ends (never "identical"); it only occurs in the
+# patterns of NEAR (the main enumeration is over spans 0-2)
+SPANS = [(1000000, 2000000), (2000000, 3500000), (4000000, 4000001), (1000400, 2000300)]
+NEAR = [(0, 3), (3, 0), (3, 3), (0, 3, 0), (0, 0, 3), (3, 0, 0), (3, 3, 0), (1, 0, 3), (0, 3, 1), (0, 3, 3, 0), (2, 3, 0, 1), (0, 3, 0, 3, 0)]
 SKEWS = [0.5, 1, 1.001, 4]
 OFFSETS = ["-10s", "-first", "-1us", "0", "+1s"]
 
@@ -95,6 +98,40 @@ def ref_merge(model):
                 res.append(c)
         out[lang] = res
     return out
+
+
+def srt_merge_check(cs, model, patterns):
+    """SRTWriter merges runs of concurrent captions itself: every maximal run must come out as one cue that carries the
+    visible text of all its captions in order (same reference as merge_concurrent_captions)"""
+    from pycaption import SRTWriter
+
+    from mc.ref import parsers
+
+    lang = cs.get_languages()[0]
+    want = []
+    for s_, e_, nodes in ref_merge({lang: model[lang]})[lang]:
+        lines, cur = [], ""
+        for t_, c_, _st in nodes:
+            if t_ == 1:
+                cur += c_
+            elif t_ == 3:
+                lines.append(cur)
+                cur = ""
+        lines.append(cur)
+        lines = [parsers.norm_line(l) for l in lines if parsers.norm_line(l)]
+        if lines:
+            want.append(lines)
+    if not want:
+        return []
+    try:
+        cues = parsers.parse_srt(SRTWriter().write(copy.deepcopy(cs)))
+    except Exception as e:  # noqa
+        return [(f"C19/srt-writer-merge/raises:{type(e).__name__}", str(e)[:200])]
+    got = [[parsers.norm_line(l) for l in c["lines"] if parsers.norm_line(l)] for c in cues]
+    got = [g for g in got if g]
+    if got != want:
+        return [("C19/srt-writer-merge/run-text-lost-or-reordered", {"got": got, "want": want})]
+    return []
 
 
 def _dyadic(fr):
@@ -224,6 +261,10 @@ def explore(patterns, depth, acc):
     v = compare(cs0, model0, patterns, [])
     for sig, det in v:
         acc.violation(sig, {"patterns": patterns, "ops": []}, det)
+    visible = lambda nodes: any(t_ == 1 and c_.strip() for t_, c_, _s in nodes)  # noqa: E731
+    if len(model0) == 1 and all(0 <= s_ <= e_ and visible(n_) for _, ml in model0.items() for s_, e_, n_ in ml):
+        for sig, det in srt_merge_check(cs0, model0, patterns):
+            acc.violation(sig, {"patterns": patterns, "ops": [], "srt": True}, det)
     acc.states += 1
     frontier = [([], cs0, model0)]
     for d in range(depth):
@@ -281,6 +322,7 @@ SECOND = [(), (0,), (0, 0, 1), (2, 0, 0)]
 def shards(tier, seed):
     b = bounds(tier)
     sh = []
+    sh.append({"n": -1, "lead": None, "depth": b["depth"], "maxlen": b["max_len"]})
     for n in range(0, b["max_len"] + 1):
         if n <= 3:
             sh.append({"n": n, "lead": None, "depth": b["depth"], "maxlen": b["max_len"]})
@@ -294,7 +336,10 @@ def run_shard(d):
     acc = Acc()
     n = d["n"]
     depth = d["depth"]
-    if d["lead"] is None:
+    if n == -1:
+        pats = list(NEAR)
+        n = 3
+    elif d["lead"] is None:
         pats = list(itertools.product(range(3), repeat=n))
     else:
         k = len(d["lead"])
@@ -315,6 +360,10 @@ def replay(case):
     cs, model = build(patterns)
     out = []
     hist = []
+    if case.get("srt"):
+        return [{"sig": sig, "detail": det} for sig, det in srt_merge_check(cs, model, patterns)]
+    if not case["ops"]:
+        return [{"sig": sig, "detail": det} for sig, det in compare(cs, model, patterns, [])]
     for op in case["ops"]:
         op = tuple(op)
         cs, ident = apply_real(cs, op, model)
